@@ -6,7 +6,7 @@ open DFV
 /-- the dictionary the header loop builds from the reference writer's lines -/
 def refHeader {α} (v2 : Bool) (x : Content α) : List (String × HVal) :=
   ("End", .str "Header") ::
-  ((if v2 then [("valuedim", HVal.nat x.vd)] else [("valuemultiplier", .nat 1), ("valueunit", .str "A/m")]) ++
+  ((if v2 then [("valuedim", HVal.nat x.vd)] else [("valuemultiplier", .str "1"), ("valueunit", .str "A/m")]) ++
   [("zmax", .num (x.hi 2)), ("ymax", .num (x.hi 1)), ("xmax", .num (x.hi 0)),
    ("zmin", .num (x.lo 2)), ("ymin", .num (x.lo 1)), ("xmin", .num (x.lo 0)),
    ("znodes", .nat (x.nodes.getD 2 0)), ("ynodes", .nat (x.nodes.getD 1 0)), ("xnodes", .nat (x.nodes.getD 0 0)),
